@@ -294,6 +294,17 @@ func genMutant(t *rapid.T) Case {
 		at := rapid.SampledFrom([]int{len(text), len(text), 0, rapid.IntRange(0, len(text)).Draw(t, "padat")}).Draw(t, "padwhere")
 		text = text[:at] + run + text[at:]
 	}
+	// what other software writes around WKT: the EWKT SRID prefix (whole, cut short,
+	// misspelt), quotes, a cast, a function call, a byte-order mark
+	if rapid.IntRange(0, 5).Draw(t, "dialect") == 0 {
+		pre := rapid.SampledFrom([]string{"SRID=4326;", "SRID=4326", "SRID=", "SRID", "srid=4326;", "Srid=0;", "SRID=4326 ", "SRID=-1;", "SRID=99999999999999999999;", "SRID=4326;;", "SRID=;", ";", "SRID=4326;SRID=4326;", "SRID =4326;", " SRID=4326;", "'", "\"", "ST_GeomFromText('", "\ufeff", "EPSG:4326;", "<", "{"}).Draw(t, "prefix")
+		post := rapid.SampledFrom([]string{"", "", "", ";", "'", "\"", "::geometry", "', 4326)", ";SRID=4326", "\x00"}).Draw(t, "suffix")
+		if rapid.IntRange(0, 3).Draw(t, "onlyprefix") == 0 {
+			text = ""
+		}
+		text = pre + text + post
+		return Case{Class: "token-mutant+dialect", Text: Txt(text)}
+	}
 	return Case{Class: "token-mutant", Text: Txt(text)}
 }
 
@@ -710,6 +721,7 @@ func FuzzWKT(f *testing.F) {
 		"MULTIPOLYGON ZM (EMPTY, ((0 0 1 2, 1 0 1 2, 1 1 1 2, 0 0 1 2)))", "GEOMETRYCOLLECTION M (POINT EMPTY, GEOMETRYCOLLECTION (POINT M (1 2 3)))",
 		"GEOMETRYCOLLECTION (GEOMETRYCOLLECTION Z EMPTY, LINESTRING (1 2 3, 4 5 6))", "multilinestring((1e3 -2.5E-2, .5 5.))", "POINT(1 2\n3\t4 5)", "POINT\x00(", "GEOMETRYCOLLECTION M (POINT(0 0 0))",
 		"POINT (1e999 -1e999)", "LINESTRING (1e308 0, 2e308 0)", "POINT (1e-999 0)",
+		"SRID=4326;POINT (1 2)", "SRID=4326", "srid=1;", "'POINT (1 2)'::geometry", "\ufeffPOINT (1 2)",
 	} {
 		f.Add(s)
 	}
